@@ -2898,6 +2898,26 @@ func (pc *PeerConnection) startRTP(
 	}
 }
 
+// dataMediaSectionMid returns the mid of a new application media section: the number of
+// media sections so far, or the next number that no other media section uses as its mid
+// (a remote description may use sparse numeric mids).
+func dataMediaSectionMid(mediaSections []mediaSection) string {
+	for n := len(mediaSections); ; n++ {
+		mid := strconv.Itoa(n)
+		inUse := false
+		for _, section := range mediaSections {
+			if section.id == mid {
+				inUse = true
+
+				break
+			}
+		}
+		if !inUse {
+			return mid
+		}
+	}
+}
+
 // generateUnmatchedSDP generates an SDP that doesn't take remote state into account.
 // This is used for the initial call for CreateOffer.
 //
@@ -2969,7 +2989,7 @@ func (pc *PeerConnection) generateUnmatchedSDP(
 
 		if pc.configuration.AlwaysNegotiateDataChannels || pc.sctpTransport.dataChannelsRequested != 0 {
 			mediaSections = append(mediaSections, mediaSection{
-				id:       strconv.Itoa(len(mediaSections)),
+				id:       dataMediaSectionMid(mediaSections),
 				data:     true,
 				sctpInit: localSctpInit,
 			})
@@ -3155,7 +3175,7 @@ func (pc *PeerConnection) generateMatchedSDP(
 					localSctpInit = pc.sctpTransport.GetSctpInit()
 				}
 				mediaSections = append(mediaSections, mediaSection{
-					id:       strconv.Itoa(len(mediaSections)),
+					id:       dataMediaSectionMid(mediaSections),
 					data:     true,
 					sctpInit: localSctpInit,
 				})
